@@ -269,8 +269,9 @@ def exec_case(case, facts, src=None):
 
         files = _files_for(w, opts, cfg, ods)
         core.apply_prestate(w, opts, world, case.get("prestate") or [])
+        core.add_bystanders(w, opts)
     else:
-        w, files = core.layout_case("c18", world, opts, case.get("prestate"))
+        w, files = core.layout_case("c18", world, opts, case.get("prestate"), bystanders=True)
     try:
         io_faults = ([case["io_fault"]] + list(case.get("io_faults_more") or [])) if mode == "io_fault" else None
         crash_at = case.get("crash_at") if mode == "crash_history" else None
@@ -381,7 +382,8 @@ def extra_phase(tier, master, facts, src, log):
             # alternately into a separate output directory and into the directory that holds the input files themselves
             o = dict(c12case["opts"], outdir="out" if (k + j) % 2 == 0 else "INPUTDIR")
             sweep.append({"property": PROP, "seed": c12case["seed"], "index": 2 * 10**9 + k * 1000 + j, "mode": "input_fault", "fault": f, "world": c12case["world"],
-                          "opts": o, "host": dict(gen.BASE_HOST), "prestate": [], "swarm": c12case["swarm"], "strace": (k + j) % 5 == 0})
+                          "opts": o, "host": dict(gen.BASE_HOST, tty=(f["class"] == "cmdline" or (k + j) % 3 == 0)), "prestate": [], "swarm": c12case["swarm"],
+                          "strace": (k + j) % 5 == 0})  # usage errors on an interactive terminal: pagers and prompts live behind isatty()
     sweep_outs = engine.run_cases(PROP, sweep, src=src)
     for o in sweep_outs:
         if "stats" in o:
